@@ -62,6 +62,6 @@ Proof. unfold gen_conv_QuantizedRelu, qt_of_qrelu. destruct lk; destruct ((b =? 
 (* get_exp as /repo has it now is the get_exp of QTools/Types.v on which every po2 theorem (shifter, po2 adders and
    accumulators, value sets) is stated; PowerOfTwo.get_min_max_exp is checked by the translator to be get_exp(self) *)
 Lemma link_get_exp t : gen_get_exp t = get_exp t.
-Proof. destruct t as [md b i sg fp p2 mv nm u]. unfold gen_get_exp, get_exp. cbn [q_sgn q_bits q_maxv].
-  destruct mv as [v|]; destruct sg; try destruct (rle v (0, 1)); f_equal; lia. Qed.
+Proof. destruct t as [md b i sg fp p2 mv nm u]. unfold gen_get_exp, get_exp, exp_bits. cbn [q_sgn q_bits q_maxv andb].
+  destruct mv as [v|]; destruct sg; try destruct (rle v (1, 1)); try destruct (rle v (0, 1)); cbn [andb]; f_equal; lia. Qed.
 Lemma link_translation_ok : translation_ok = true. Proof. reflexivity. Qed.
